@@ -58,6 +58,22 @@ pub fn eval(cfg: &Cfg, input: &[u8], st: &mut Stats) -> Result<(), String> {
                 k, n, data
             ));
         }
+        // ... and the tail must follow a run for which the standard has an end-of-data fallback:
+        // C40/Text/X12 (5.2.5.2: implied unlatch with one codeword left, otherwise unlatch and
+        // finish in ASCII) or EDIFACT with one or two codewords left at a group boundary (5.2.8.2).
+        // EDIFACT can end anywhere with its own unlatch value and Base256 by its length, so ASCII
+        // after an explicit EDIFACT unlatch or after a Base256 run is an ordinary switch to ASCII.
+        let form_ok = match p.run_ends.last() {
+            Some((Mode::Edifact, e)) => *e == decoder::RunEnd::EdifactTail,
+            Some((Mode::Base256, _)) => false,
+            _ => true,
+        };
+        if !form_ok {
+            return Err(format!(
+                "character {} of {} is ASCII encoded although ASCII is disabled: the run before it ends with {:?}, after which the standard has no end-of-data fallback to ASCII; stream {:?}",
+                k, n, p.run_ends.last(), data
+            ));
+        }
         st.count("ascii_fallback_characters");
         st.max("ascii_tail_len", (n - k) as u64);
     }
